@@ -3,7 +3,7 @@ package pc17
 import (
 	"sort"
 
-	"verifharness/mon"
+	"verifharness/trigkit"
 )
 
 // ---- reference trigger model (written from the property statement, shares nothing with execution/triggers.go) ----
@@ -123,8 +123,8 @@ func (c *refMulti) poll() []string {
 	return out
 }
 
-func newRef(trig []mon.TrigSpec) refTrigger {
-	one := func(t mon.TrigSpec) refTrigger {
+func newRef(trig []trigkit.TrigSpec) refTrigger {
+	one := func(t trigkit.TrigSpec) refTrigger {
 		switch t.Kind {
 		case "counting":
 			return &refCounting{n: t.N, counts: map[string]uint{}}
